@@ -166,12 +166,29 @@ def funcTyped (Γ : Tbl) (f : MFunc) : Bool :=
   | some ms => mappedTyped Γ f ms
   | none => singleTyped Γ f
 
-/-- what pipefunc checks when `MapSpec`, `PipeFunc` and `Pipeline` objects are built (not needed by `C01_never_refused`; it
+/-- every ArraySpec of every (given or generated) MapSpec of the pipeline -/
+def allSpecs (fs : List MFunc) : List ASpec :=
+  fs.flatMap fun f => match f.mapspec with
+    | none => []
+    | some ms => ms.inputs ++ ms.outputs
+
+/-- two axis lists of one array agree: same rank, and the same index name wherever both name the axis (`:` aside) -/
+def axesAgree (a b : List (Option String)) : Bool :=
+  a.length == b.length && (a.zip b).all fun xy => xy.1.isNone || xy.2.isNone || xy.1 == xy.2
+
+/-- `validate_consistent_axes` (`map/_mapspec.py:384-412`, called by `prepare_run` before anything runs): all ArraySpecs of one
+    array name have the same rank and the same index name at the same position.  `x[i, j] -> a[i, j]` next to `x[j, i] -> b[j, i]`
+    is refused by pipefunc by design (an array has ONE axis naming per pipeline) although each MapSpec alone denotes an array;
+    the model of `run_map` does not mirror this check, so it is part of what makes a request *valid* here. -/
+def consistentAxes (fs : List MFunc) : Bool :=
+  (allSpecs fs).all fun a => (allSpecs fs).all fun b => a.name != b.name || axesAgree a.axes b.axes
+
+/-- what pipefunc checks when `MapSpec`, `PipeFunc` and `Pipeline` objects are built and when `map` starts (not needed by `C01_never_refused`; it
     keeps `Conforms` to requests that can be written down with the real library): output names are unique; the MapSpec
     outputs are the function's outputs, every output axis is named and all outputs carry the same axes; MapSpec inputs are
     parameters; a mapped function with internal axes returns arrays of exactly its internal shape -/
 def constructible (Γ : Tbl) (fs : List MFunc) : Bool :=
-  nodupB (allOutputs fs) &&
+  nodupB (allOutputs fs) && consistentAxes fs &&
   fs.all fun f =>
     !f.outputs.isEmpty &&
     match f.mapspec with
@@ -208,7 +225,8 @@ def constructible (Γ : Tbl) (fs : List MFunc) : Bool :=
        size along that index                                                               (`cannot index`, `KeyError`, `function without outputs`)
        Called once (`singleTyped`: no MapSpec, or `... -> v[j]`): an output recorded in `Γ` is returned (`ret`) as arrays of
        exactly the recorded — i.e. its internal — shape                                     (`cannot index` in a consumer)
-    9. `constructible` — what the constructors of pipefunc enforce; not used by the proof.
+    9. `constructible` — what the constructors of pipefunc enforce, and `validate_consistent_axes` (one axis naming per array:
+       `consistentAxes`, round 2); not used by the proof.
 
     6 and 8 overlap on purpose: 6 is what `map_shapes` checks against the table *so far*, 8 is stated against the final table,
     which is what the run consults.  The existence/rank facts in 8 ("recorded in `Γ` with a mask of the same rank") follow from
